@@ -471,6 +471,52 @@ static void op_decbig(void)
     gfree(&k); gfree(&n); gfree(&ad); gfree(&m); gfree(&c); gfree(&o);
 }
 
+/* ------------------------------------------------------------------ lengths of 4 GiB and more
+ * The message is a lazily mapped all-zero region (virtual memory only), described in the event as "zeros:<n>".
+ * hashhuge split=a,b,c : hash 'total' zero bytes in one call (no split) or in the given chunks;
+ * enchuge  adlen=      : TinyJAMBU encrypt of a short fixed message under associated data of adlen zero bytes. */
+static unsigned char *zero_map(unsigned long long n)
+{
+    void *p = mmap(NULL, n + 4096, PROT_READ, MAP_PRIVATE | MAP_ANONYMOUS | MAP_NORESERVE, -1, 0);
+    if (p == MAP_FAILED) die("cannot map the huge zero region");
+    return p;
+}
+static void op_hashhuge(void)
+{
+    unsigned long long total = strtoull(kv("total", "0"), NULL, 0);
+    const char *split = kv("split", "");
+    unsigned char *z = zero_map(total), out[32];
+    if (!*split) {
+        tinyjambu_hash(out, z, (size_t)total);
+    } else {
+        tinyjambu_hash_state_t st; unsigned long long pos = 0;
+        char *c = strdup(split), *sv = NULL;
+        tinyjambu_hash_init(&st);
+        for (char *t = strtok_r(c, ",", &sv); t; t = strtok_r(NULL, ",", &sv)) {
+            unsigned long long n = strtoull(t, NULL, 0);
+            if (pos + n > total) die("split exceeds total");
+            tinyjambu_hash_update(&st, z + pos, (size_t)n); pos += n;
+        }
+        if (pos != total) die("split does not add up");
+        tinyjambu_hash_finalize(&st, out); tinyjambu_hash_free(&st);
+        free(c);
+    }
+    munmap(z, total + 4096);
+    jbegin("HashHuge"); printf(",\"desc\":\"zeros:%llu\"", total); jstr("split", *split ? split : "oneshot"); jbytes("out", out, 32); jend();
+}
+static void op_enchuge(void)
+{
+    long v = kvi("v", 128);
+    unsigned long long adlen = strtoull(kv("adlen", "0"), NULL, 0);
+    unsigned char key[32], nonce[12], m[5] = {1, 2, 3, 4, 5}, c[13]; size_t clen = 0;
+    unsigned char *z = zero_map(adlen);
+    memset(key, 0x42, sizeof(key)); memset(nonce, 0x24, sizeof(nonce));
+    get_enc(kv("mode", "aead"), v)(c, &clen, m, 5, z, (size_t)adlen, nonce, key);
+    munmap(z, adlen + 4096);
+    jbegin("EncHuge"); jstr("mode", kv("mode", "aead")); jint("v", v); printf(",\"desc\":\"zeros:%llu\"", adlen);
+    jint("small", adlen < 65536 ? (long)adlen : -1); jbytes("out", c, 13); jend();
+}
+
 /* ------------------------------------------------------------------ permutation */
 /* perm v= rounds= s=<16 bytes hex> k=<key bytes hex>; state words little-endian on this host */
 static void op_perm(void)
@@ -1061,6 +1107,8 @@ int main(void)
         else if (!strcmp(cur_op, "checktag")) op_checktag();
         else if (!strcmp(cur_op, "decbig")) op_decbig();
         else if (!strcmp(cur_op, "perm")) op_perm();
+        else if (!strcmp(cur_op, "hashhuge")) op_hashhuge();
+        else if (!strcmp(cur_op, "enchuge")) op_enchuge();
         else if (!strcmp(cur_op, "garbage")) op_garbage();
         else if (!strcmp(cur_op, "hash")) op_hash();
         else if (!strcmp(cur_op, "hinit")) op_hinit(0);
